@@ -5,6 +5,7 @@ CONSTANTS
   MaxCrashes = 2
   ClientOps = {"cancel", "release", "frelease"}
   RestartIfIdKnown = FALSE
+  IdStoredLate = FALSE
   StdoutFromZero = FALSE
   ReleaseSkipsRemote = FALSE
   RTraceFile = "rw_trace.ndjson"
@@ -12,5 +13,6 @@ INVARIANTS
   ForwardOnly
   NeverContradictsE
   SubmittedOnce
+  BoundOnceShipped
 POSTCONDITION RTraceAccepted
 CHECK_DEADLOCK FALSE
